@@ -11,8 +11,19 @@ func GetQuote(content bytes.Bytes, position bytes.Index) string {
 
 func quote(content bytes.Bytes, position bytes.Index) string {
 	const maxLength = 200
+	if content.Len() == 0 {
+		return ""
+	}
+	if position > content.LenIndex() {
+		// The position right after the last byte (the end of file) is valid,
+		// everything further is treated the same way.
+		position = content.LenIndex()
+	}
 	begin := content.BeginningOfLine(position)
 	end := content.EndOfLine(position)
+	if end < begin {
+		return ""
+	}
 	if end-begin > maxLength {
 		end = begin + maxLength - 3
 		return content.Sub(begin, end).TrimSpacesFromLeft().String() + "..."
